@@ -207,7 +207,8 @@ int main(int argc, char **argv) {
 					const char *outcome = "completed";
 					try {
 						if(table == 0) {
-							frg::array args = { frg::option{"a", frg::store_true(flag)}, frg::option{"aa", frg::as_string_view(sv)}, frg::option{"1", frg::as_number(num)} };
+							frg::array args = { frg::option{"a", frg::store_true(flag)}, frg::option{"aa", frg::as_string_view(sv)}, frg::option{"1", frg::as_number(num)},
+								frg::option{"1", frg::store_true(flag2)} };     // a second flag, reached only if the first flag's mismatch lets the search go on
 							frg::parse_arguments(frg::string_view(buf, in.size()), args);
 						} else {
 							// duplicates and an empty option name
